@@ -17,7 +17,12 @@ Inductive tstep :=
 | TOp (o : op) (expect : res)    (* model result must be [expect]; state compared afterwards *)
 | TSkip                          (* implementation refused for a reason outside the model: state unchanged *)
 | TReload (p : bool) (r : obs)   (* pure observation: p's state re-opened from disk *)
-| TCut (ka kb : nat) (kindsA kindsB : list N).  (* disconnect + resync; kinds of the messages A / B retransmit *)
+| TCut (ka kb : nat) (kindsA kindsB : list N)   (* disconnect + resync; kinds of the messages A / B retransmit *)
+| TCrashIn (o : op) (p : bool) (r : obs) (kindsA kindsB : list N).
+    (* WRITE-LEVEL crash: p's node died somewhere inside its call [o]; r = p's state re-opened
+       from disk; then everything in flight is lost and both sides restart + resync (= XCut 0 0).
+       Accepted iff r and what follows agree with the call NOT having happened or with the call
+       having COMPLETED; the replay continues from the matching model state. *)
 
 Definition kind_of (m : msg) : N :=
   match m with
@@ -72,6 +77,20 @@ Definition diff_sys (s : sys) (oa ob : obs) : N :=
   | d => d
   end.
 
+(* one candidate of a write-level crash: p re-opened from disk must be [restore] of the
+   candidate state; then disconnect (nothing delivered), resync, compare.  0 = agrees. *)
+Definition crash_cand (c : cfg) (s : xsys) (p : bool) (ro : obs) (ea eb : list N)
+           (oa ob : obs) : N * xsys :=
+  match diff_party (restore p (get (xs s) p)) ro with
+  | 0%N =>
+    let '(rs, s') := xstep c s (XCut 0 0) in
+    if negb (res_eqb rs Ok) then (1%N, s')
+    else if negb (kinds_eqb (map kind_of (qAB (xs s'))) ea) then (40%N, s')
+    else if negb (kinds_eqb (map kind_of (qBA (xs s'))) eb) then (41%N, s')
+    else (diff_sys (xs s') oa ob, s')
+  | d => ((30 + d)%N, s)
+  end.
+
 (* returns [] if the whole trace agrees, else [step index; code]:
    code 1 = result differs, 2..7 = field of A, 12..17 = field of B,
    20 = model could not initialise, 30+ = reload projection differs *)
@@ -96,6 +115,19 @@ Fixpoint check_steps (c : cfg) (s : xsys) (l : list (tstep * obs * obs)) (i : N)
            | 0%N => check_steps c s' r (i + 1)%N
            | d => [i; d]
            end
+    | TCrashIn o p ro ea eb =>
+      (* candidate 1: the call completed (only if the model accepts the call);
+         candidate 2: the call did not happen.  Error = [i; 50; code of 1; code of 2]. *)
+      let '(rs, s1) := xstep c s (XOp o) in
+      let after := if res_eqb rs Ok then crash_cand c s1 p ro ea eb oa ob else (1%N, s1) in
+      match after with
+      | (0%N, s') => check_steps c s' r (i + 1)%N
+      | (da, _) =>
+        match crash_cand c s p ro ea eb oa ob with
+        | (0%N, s') => check_steps c s' r (i + 1)%N
+        | (db, _) => [i; 50%N; da; db]
+        end
+      end
     | TSkip =>
       match diff_sys (xs s) oa ob with
       | 0%N => check_steps c s r (i + 1)%N
